@@ -2143,8 +2143,8 @@ _peer_trust = ["go-diameter (state machine, mux locking, connection teardown) is
                "the go/ast fact extractor harness/cmd/diamclient.go (defer conn.Close, channel made per request, select-default send, "
                "synchronous dial: no go statement in the client function)",
                "real-time scenarios: delays keep 1.5 s clear of the 5 s timeout; the exact race is the model's business"]
-PROPS["C18"] = dict(lean=["ChfVerif.Props.C18"], explore=explore_c18, gen=[gen_table("diamclient", "DiamClient.lean"), gen_table("abmfserver", "AbmfServer.lean")], trusted=_peer_trust)
-PROPS["C19"] = dict(lean=["ChfVerif.Props.C19"], explore=explore_c19, gen=[gen_table("diamclient", "DiamClient.lean"), gen_table("abmfserver", "AbmfServer.lean")], trusted=_peer_trust)
+PROPS["C18"] = dict(lean=["ChfVerif.Props.C18"], explore=explore_c18, gen=[gen_table("diamclient", "DiamClient.lean")], trusted=_peer_trust)
+PROPS["C19"] = dict(lean=["ChfVerif.Props.C19"], explore=explore_c19, gen=[gen_table("diamclient", "DiamClient.lean")], trusted=_peer_trust)
 
 
 # ------------------------------------------------------------------ C11  (no crash, no wedge)
